@@ -463,9 +463,16 @@ def run_property(prop, tier, seed, t0):
         prop, tier, n_proved, n_ob, len(undecided), len(bounded), sum(b["evaluations"] for b in bounded), len(enums), wall))
     for k in known_hit.values():
         print("KNOWN-FINDING: property=%s %s %s" % (prop, k["id"], k["what"]))
+    shown = {}
     for oid, path, tail in violations:
+        shown[oid] = shown.get(oid, 0) + 1
+        if shown[oid] > 3:
+            continue                # further witnesses of the same obligation: replay files are written, lines not repeated
         print("violated obligation: %s" % oid)
         print("VIOLATION property=%s replay=%s%s" % (prop, path, tail))
+    for oid, n in shown.items():
+        if n > 3:
+            print("(%d more failing inputs for %s, see /verif/replay/%s)" % (n - 3, oid, prop))
     if violations:
         for e in errors:
             print("checker error:", e)
